@@ -334,6 +334,24 @@ Fixpoint compile (a : ast) : option compiled :=
           end
       | _, _ => None
       end
+  | SubqueryMarker (Alias c0 (Some m)) =>
+      (* alias() followed by a verb that needs a subquery: as below, and the columns of the outer query carry
+         the identities that alias() handed out (the code re-numbers all identities when the tree is cloned
+         for export; the model renames the columns of the subquery) *)
+      match compile c0 with
+      | Some cc =>
+          let sc := c_scope cc in
+          let q := c_q cc in
+          Some {| c_from := FRows (fun d => map (fun u => map (fun x => (remap_uid m x, evd (c_defs cc) u x)) sc) (final_units d cc));
+                  c_cols := map (remap_uid m) sc;
+                  c_q := {| q_select := map (remap_uid m) (q_select q); q_part := map (remap_uid m) (q_part q);
+                            q_group := []; q_where := []; q_having := [];
+                            q_order := []; q_limit := None; q_offset := 0; q_summ := false |};
+                  c_labels := map (fun ul => (remap_uid m (fst ul), snd ul)) (c_labels cc);
+                  c_defs := map (fun x => (remap_uid m x, ECol (remap_uid m x))) sc;
+                  c_scope := map (remap_uid m) sc |}
+      | None => None
+      end
   | SubqueryMarker c =>
       (* the query built so far becomes a subquery: every column in scope is selected in it (compile_ast
          selects the ones that are needed later - a subset with the same meaning), the outer query starts
@@ -487,6 +505,15 @@ Fixpoint flat_ok (a : ast) : bool :=
          | None => false
          end
   | SliceHead c n k => flat_ok c && Z.leb 0 n && Z.leb 0 k
+  | SubqueryMarker (Alias c0 (Some m)) =>
+      (* the renaming keeps different identities different *)
+      flat_ok c0
+      && match compile c0 with
+         | Some cc =>
+             let U := ast_uids c0 ++ c_scope cc ++ map fst (c_labels cc) in
+             forallb (fun a => forallb (fun b => implb (N.eqb (remap_uid m a) (remap_uid m b)) (N.eqb a b)) U) U
+         | None => false
+         end
   | SubqueryMarker c => flat_ok c
   | Join l r on JInner =>
       (* both operands: plain SELECT ... FROM ... WHERE (not summarized, ordered, limited or grouped, no
